@@ -13,6 +13,7 @@ usage: tools/mutate.py <scratch-dir> [--files f1,f2,...] [--max N] [--seed S]
 """
 import json, os, re, subprocess, sys, random, shutil, time
 
+OPSET = 1
 REPO = '/repo'
 VERIF = '/verif'
 
@@ -68,6 +69,31 @@ SWAPS = [
     (r'\.skip\(1\)', '.skip(0)'), (r'\.next\(\)', '.last()'),
 ]
 
+# second wave (--set 2): constants, negated conditions, option/result predicates, iterator adaptors, tuple fields,
+# argument order, statement deletion
+SWAPS2 = [
+    (r'\b0\b', '1'), (r'\b1\b', '0'), (r'\b1\b', '2'), (r'\b2\b', '3'), (r'\b7\b', '6'), (r'\b8\b', '7'), (r'\b10\b', '9'),
+    (r'\b16\b', '15'), (r'\b60\b', '59'), (r'\b24\b', '23'), (r'\b1000\b', '999'), (r'\b100\b', '99'),
+    (r'\bif (?!let)([^{]+) \{', r'if !(\1) {'), (r'\bif (?!let)([^{]+) \{', 'if true {'), (r'\bif (?!let)([^{]+) \{', 'if false {'),
+    (r'is_some\(\)', 'is_none()'), (r'is_none\(\)', 'is_some()'), (r'is_ok\(\)', 'is_err()'), (r'is_err\(\)', 'is_ok()'),
+    (r'\.is_empty\(\)', '.len() == 1'), (r'\.all\(', '.any('), (r'\.any\(', '.all('), (r'\.min\(', '.max('), (r'\.max\(', '.min('),
+    (r'\.rev\(\)', ''), (r'\.first\(\)', '.last()'), (r'\.last\(\)', '.first()'), (r'\.\.=', '..'),
+    (r'\.0\b', '.1'), (r'\.1\b', '.0'), (r'\(left, right\)', '(right, left)'), (r'\(l, r\)', '(r, l)'), (r'\(a, b\)', '(b, a)'),
+    (r'\(value, index\)', '(index, value)'), (r'\(coll, item\)', '(item, coll)'),
+    (r'unwrap_or_default\(\)', 'unwrap()'), (r'\.take\((\w+)\)', r'.take(\1 + 1)'), (r'\.skip\((\w+)\)', r'.skip(\1 + 1)'),
+    (r'to_string\(\)', 'to_string().to_lowercase()'), (r'\.abs\(\)', ''), (r'-(\w+)\b', r'\1'),
+    (r'starts_with', 'ends_with'), (r'ends_with', 'starts_with'),
+    (r'saturating_', 'wrapping_'), (r'wrapping_', 'saturating_'), (r'checked_', 'wrapping_'),
+    (r'i64::try_from', 'i32::try_from'), (r'u32::try_from', 'u16::try_from'), (r'usize::try_from', 'u8::try_from'),
+    (r'Value::Int', 'Value::Float'), (r'Value::None', 'Value::Bool(false)'),
+    (r'i128::MAX', 'i64::MAX as i128'), (r'i128::MIN', 'i64::MIN as i128'), (r'u64::MAX', 'u32::MAX as u64'),
+    (r'\.clone\(\)', '.clone()'), (r'Ordering::Less', 'Ordering::Greater'), (r'Ordering::Greater', 'Ordering::Less'),
+    (r'partial_cmp\((\w+)\)', r'partial_cmp(\1).map(|o| o.reverse())'),
+    (r'eq_ignore_ascii_case', 'eq'), (r'\.chars\(\)', '.chars().rev()'), (r'\.bytes\(\)', '.bytes().rev()'),
+    (r'\.len\(\)', '.len() + 1'), (r'\.len\(\)', '.len().saturating_sub(1)'), (r'\.push\(', '.insert(0, '),
+    (r'\.trim_matches\(', '.trim_start_matches('), (r'replace\(', 'replacen('),
+]
+
 
 def in_test_module(lines, i):
     # everything after the first `#[cfg(test)]` of a file is test code
@@ -84,15 +110,26 @@ def candidates(path, text):
         s = line.strip()
         if not s or s.startswith('//') or s.startswith('#[') or s.startswith('use ') or in_test_module(lines, i):
             continue
-        for pat, rep in SWAPS:
+        for pat, rep in (SWAPS2 if OPSET == 2 else SWAPS):
             for m in re.finditer(pat, line):
-                new = line[:m.start()] + rep + line[m.end():]
+                new = line[:m.start()] + (m.expand(rep) if OPSET == 2 else rep) + line[m.end():]
                 if new != line:
                     out.append((i, line, new, f'{pat} -> {rep}'))
+        # statement deletion (second wave): a whole-line call statement that binds nothing
+        if OPSET == 2 and re.match(r'^\s*[a-z_][A-Za-z0-9_.]*(\.|::)[a-z_]+\(.*\);\s*$', line) and not s.startswith(('let ', 'return')):
+            out.append((i, line, '', 'delete statement'))
+        if OPSET == 2:
+            continue
         # single-line match arm deletion (`pattern => result,`) inside eval / convert style matches
         if re.match(r'^\s*\(?[A-Za-z_:(),| &*]+\)?\s*(if [^=]+)?=> .*,\s*$', line) and '_ =>' not in line and path.endswith('.rs'):
             out.append((i, line, '', 'delete arm'))
-    return out
+    seen = set()
+    uniq = []
+    for c in out:
+        if (c[0], c[2]) not in seen:
+            seen.add((c[0], c[2]))
+            uniq.append(c)
+    return uniq
 
 
 def run(cmd, cwd, timeout, env=None):
@@ -117,6 +154,9 @@ def main():
             maxn = int(args.pop(0))
         elif a == '--seed':
             seed = int(args.pop(0))
+        elif a == '--set':
+            global OPSET
+            OPSET = int(args.pop(0))
     os.makedirs(out, exist_ok=True)
     wt = os.path.join(out, 'wt')
     if not os.path.isdir(wt):
